@@ -137,6 +137,12 @@ func (idx *hybridSearchIndex) AddWithID(id uint32, vector []float32, text string
 // addInternal adds a document to all relevant indexes.
 // Must be called with idx.mu held.
 func (idx *hybridSearchIndex) addInternal(id uint32, vector []float32, text string, metadata map[string]interface{}) error {
+	// Validate every part before the first sub-index is touched: there is no rollback,
+	// so a document rejected by a later sub-index must not have reached an earlier one
+	if err := idx.validateDocument(vector, metadata); err != nil {
+		return err
+	}
+
 	info := &documentInfo{}
 
 	// Add to vector index
@@ -166,6 +172,32 @@ func (idx *hybridSearchIndex) addInternal(id uint32, vector []float32, text stri
 	}
 
 	idx.docInfo[id] = info
+
+	return nil
+}
+
+// validateDocument checks the parts of a document that a sub-index could reject.
+func (idx *hybridSearchIndex) validateDocument(vector []float32, metadata map[string]interface{}) error {
+	if idx.vectorIndex != nil && len(vector) > 0 {
+		if !idx.vectorIndex.Trained() {
+			return fmt.Errorf("failed to add to vector index: index must be trained before adding vectors")
+		}
+		if len(vector) != idx.vectorIndex.Dimensions() {
+			return fmt.Errorf("failed to add to vector index: vector dimension mismatch: expected %d, got %d",
+				idx.vectorIndex.Dimensions(), len(vector))
+		}
+		if distance, err := NewDistance(idx.vectorIndex.DistanceKind()); err == nil {
+			if _, err := distance.Preprocess(vector); err != nil {
+				return fmt.Errorf("failed to add to vector index: %w", err)
+			}
+		}
+	}
+
+	if idx.metadataIndex != nil && len(metadata) > 0 {
+		if err := validateMetadata(metadata); err != nil {
+			return fmt.Errorf("failed to add to metadata index: %w", err)
+		}
+	}
 
 	return nil
 }
